@@ -16,6 +16,7 @@ package util
 
 //@ func FindClosest
 //@   props C12
+//@   functional closestOf
 //@   overflow
 //@   requires len(arr) >= 1 && len(arr) <= 1073741824 && strictlyAsc(arr)
 //@   requires inInt32(target) && (forall k :: 0 <= k && k < len(arr) ==> inInt32(arr[k]))
